@@ -948,7 +948,10 @@ impl Ctx {
                     let da = dumps(&mut ex_direct);
                     let dl = lua_dumps.get_or_insert_with(|| dumps(&mut ex_lua)).clone();
                     if !same_reply {
-                        let class = if contains_nil(rd) && show_resp(&model_conv(rd)) == show_resp(&rl) { "C16:lua:array-with-nil-truncated".to_string() } else { format!("C16:lua:reply-differs:{}", name) };
+                        // the model of the current code proves that NO command of the translator's table answers an array
+                        // that contains a nil (`translator_replies_conv_stable`): such a reply is not the recorded
+                        // conversion finding (which needs a script that builds the array itself) but a new difference
+                        let class = if contains_nil(rd) && show_resp(&model_conv(rd)) == show_resp(&rl) { format!("C16:lua:translator-command-reply-contains-nil:{}", name) } else { format!("C16:lua:reply-differs:{}", name) };
                         self.out.violation(&class, "the reply of a command run through redis.pcall differs from the reply of the same command sent directly (after the documented conversion)",
                             replay("lua-reply", json!({"primed_state": PRIMED, "direct_reply": show_resp(rd), "lua_reply": show_resp(&rl)})));
                     }
